@@ -8,6 +8,7 @@ import (
 	"strconv"
 	"strings"
 	"sync"
+	"sync/atomic"
 
 	"github.com/kubeshark/base/pkg/api"
 	"ksverif/harness/internal/mock"
@@ -158,8 +159,42 @@ func runEmitStress() sx.Sx {
 		items++
 		seen[it.Stream+"/"+strconv.FormatInt(it.Index, 10)] = true
 	}
+	// fresh streams: the first two Emit calls of an emitter, released together - whatever an emitter sets up
+	// on first use must not let both through
+	const fresh = 4000
+	bad := 0
+	for t := 0; t < fresh; t++ {
+		st := &mock.Stream{PcapId: "f"}
+		ch := make(chan *api.OutputChannelItem, 4)
+		em := &api.Emitting{AppStats: stats, Stream: st, OutputChannel: ch}
+		var ready, done sync.WaitGroup
+		var gate int32
+		for side := 0; side < 2; side++ {
+			ready.Add(1)
+			done.Add(1)
+			go func() {
+				defer done.Done()
+				ready.Done()
+				for atomic.LoadInt32(&gate) == 0 {
+				}
+				em.Emit(&api.OutputChannelItem{})
+			}()
+		}
+		ready.Wait()
+		atomic.StoreInt32(&gate, 1)
+		done.Wait()
+		close(ch)
+		var idx []int64
+		for it := range ch {
+			idx = append(idx, it.Index)
+		}
+		if !(len(idx) == 2 && idx[0]+idx[1] == 1 && st.Count() == 2) {
+			bad++
+		}
+	}
 	return sx.L(sx.A("stress"), sx.L(sx.A("emits"), sx.N(total)), sx.L(sx.A("items"), sx.N(items)),
-		sx.L(sx.A("distinct"), sx.N(len(seen))), sx.L(sx.A("matched"), sx.U(stats.MatchedPairs)))
+		sx.L(sx.A("distinct"), sx.N(len(seen))), sx.L(sx.A("matched"), sx.U(stats.MatchedPairs-fresh*2)),
+		sx.L(sx.A("fresh"), sx.N(fresh), sx.N(bad)))
 }
 
 func runSchedExcl(p sx.Sx) sx.Sx {
